@@ -18,6 +18,8 @@ import GradysProofs.Lemmas.GeoSmall
                                              the altitude difference is kept —; a target on the reference meridian
                                              has x = 0, on the reference parallel y = 0
   * `C20_goto_geo`                           geographic goto = Cartesian goto to the converted point (any scalar)
+  * `C20_goto_geo_every_send`                the same geographic command sent repeatedly / by several nodes / after any
+                                             history: every sender is headed for the converted original target
   * `C20_pinned_mirror_distance`             what the pinned assignment of the legs does (F20)
 -/
 open Real
@@ -340,6 +342,35 @@ theorem C20_goto_geo {S σ : Type} [Scalar S] (cfg : Config S) (n : NodeId) (p :
     (w : World S σ) :
     Sim.execReq cfg n (.gotoGeo p) w
       = Sim.execReq cfg n (.goto (geoToCartesian cfg.refGeo p)) w := rfl
+
+/-- **Every send counts on its own.**  A geographic goto carries a VALUE `p` = (lat, lon, alt); handling
+    it reads that value and nothing else.  So when the same geographic command is sent again and
+    again — by one node (a stored command re-sent from a timer: `ns` with repetitions), by several
+    nodes (a rally point kept as a constant: several members of `ns`), after any history `w` (other
+    commands, other targets, an earlier handling of the very same command) — every node that sent it
+    is headed for the converted point `geoToCartesian refGeo p` of the ORIGINAL (lat, lon, alt), and
+    the targets of all other nodes are untouched.  An implementation in which handling a command
+    alters the command object (so that a later handling of it starts from other numbers) is not
+    this model. -/
+theorem C20_goto_geo_every_send {S σ : Type} [Scalar S] (cfg : Config S) (h : cfg.hasMob = true)
+    (p : V3 S) (ns : List NodeId) (w : World S σ) (m : NodeId) :
+    (ns.foldl (fun w n => (Sim.execReq cfg n (.gotoGeo p) w).1) w).target m
+      = if m ∈ ns then some (geoToCartesian cfg.refGeo p) else w.target m := by
+  induction ns generalizing w with
+  | nil => simp
+  | cons a as ih =>
+    rw [List.foldl_cons, ih]
+    by_cases hm : m ∈ as
+    · simp [hm]
+    · by_cases hma : m = a
+      · subst hma; simp [hm, Sim.execReq, h, Sim.upd]
+      · simp [hm, hma, Sim.execReq, h, Sim.upd]
+
+/-- non-vacuity: two nodes sharing the command and one of them sending it twice -/
+example {S σ : Type} [Scalar S] (cfg : Config S) (h : cfg.hasMob = true) (p : V3 S) (w : World S σ) :
+    ([0, 1, 0].foldl (fun w n => (Sim.execReq cfg n (.gotoGeo p) w).1) w).target 1
+      = some (geoToCartesian cfg.refGeo p) := by
+  rw [C20_goto_geo_every_send cfg h]; simp
 
 /-! ### the defect F20: the pinned assignment of the legs -/
 
